@@ -174,7 +174,7 @@ walk:
 
 func init() {
 	checks["C21"] = eng.Check{
-		Rule:        "code images of 1..2 blocks (at 0x1000 and 0x2000 / directly adjacent / 0x1000 and 2^64-16 / 0x1000 and a block ending exactly at 2^64 / with an empty block before, between or directly behind), each block every sequence of <=3 words from {addi, sw, beq, jal, lr.w(A only), auipc, jalr (linking), 00000000, ffffffff} followed by 0..3 extra bytes (second block 1 word in quick), in both input orders, rv64ima and rv32i: parser.Parse must fail iff the reference walk meets an undecodable or truncated word, else yield the exact tiling with the image bytes, the front end's text/type and effects of equal kinds/keys/widths that are equivalent to the front end's lifting under 8 pre-states and agree with the reference machine (so a parser that keeps state across positions cannot hide behind its own lifting). Plus, for rv64ima and rv32ima, every mnemonic with all 4^3 choices of rd, rs1, rs2 from {x0,x5,x6,x31} (every register coincidence) in two-word images at two addresses. Non-trivial = image whose layout is valid (non-overlapping).",
+		Rule:        "code images of 1..2 blocks (at 0x1000 and 0x2000 / directly adjacent / 0x1000 and 2^64-16 / 0x1000 and a block ending exactly at 2^64 / with an empty block before, between or directly behind), each block every sequence of <=3 words from {addi, sw, beq, jal, lr.w(A only), auipc, jalr (linking), 00000000, ffffffff} followed by 0..3 extra bytes (second block 1 word in quick), in both input orders, rv64ima and rv32i: parser.Parse must fail iff the reference walk meets an undecodable or truncated word, else yield the exact tiling with the image bytes, the front end's text/type and effects of equal kinds/keys/widths that are equivalent to the front end's lifting under 8 pre-states and agree with the reference machine (so a parser that keeps state across positions cannot hide behind its own lifting). Plus, for rv64ima and rv32ima, every mnemonic with all 4^3 choices of rd, rs1, rs2 from {x0,x5,x6,x31} (every register coincidence) in two-word images at two addresses; plus an image of 20 blocks in sorted, reversed, interleaved and rotated order. Non-trivial = image whose layout is valid (non-overlapping).",
 		Assumptions: []string{"blocks are non-empty and built through the real elf.newBlock/newMemory (hook)"},
 		Run: func(r *eng.Run) {
 			words := []uint32{0x00100093, 0x00112023, 0x00208463, 0xffdff06f, 0x1000a1af, 0x00001197, 0x000300e7, 0x00000000, 0xffffffff}
@@ -239,6 +239,44 @@ func init() {
 						do(c21Case{cfg, []c21Block{{-uint64(len(contents[i]) / 2), contents[i]}, {0x1000, "93001000"}}})
 					}
 				})
+			}
+			// images of 20 blocks (more than a library sort handles by insertion; some directly
+			// adjacent) handed over in sorted, reversed, interleaved and rotated order
+			{
+				const nm = 20
+				var many []c21Block
+				for i := 0; i < nm; i++ {
+					a := 0x1000 + uint64(i)*8
+					if i%3 == 2 {
+						a += 0x100
+					}
+					hex := fmt.Sprintf("%x", rvx.WordBytes(words[i%6]))
+					if i%2 == 1 {
+						hex += fmt.Sprintf("%x", rvx.WordBytes(words[(i+1)%6]))
+					}
+					many = append(many, c21Block{a, hex})
+				}
+				perms := []func(i int) int{
+					func(i int) int { return i },
+					func(i int) int { return nm - 1 - i },
+					func(i int) int {
+						if i < nm/2 {
+							return 2 * i
+						}
+						return 2*(i-nm/2) + 1
+					},
+				}
+				for k := 1; k < nm; k += 3 {
+					k := k
+					perms = append(perms, func(i int) int { return (i + k) % nm })
+				}
+				for _, pf := range perms {
+					var bl []c21Block
+					for i := 0; i < nm; i++ {
+						bl = append(bl, many[pf(i)])
+					}
+					do(c21Case{cfgs[0], bl})
+				}
 			}
 			// every mnemonic with every register coincidence (all 4^3 choices of rd, rs1, rs2 from
 			// {x0, x5, x6, x31}): one-word images followed by an addi, at two addresses
